@@ -300,11 +300,33 @@ func init() {
 			if !ok {
 				return Val{}, false
 			}
-			if len(a) > 1 && a[1].Fn != nil && a[1].Fn.Fn != nil {
-				c.havocMod(c.E.modInfo(a[1].Fn.Fn).Exist, c.E.modInfo(a[1].Fn.Fn).Fresh, "sort callback")
-				c.E.noteCallbackPanics(c, a[1].Fn.Fn)
-			}
 			hn, es := c.M.SliceHeap(st.Elem())
+			if len(a) > 1 && a[1].Fn != nil && a[1].Fn.Fn != nil {
+				cb := a[1].Fn.Fn
+				// the comparator is only ever applied to elements of the slice: its preconditions are
+				// obliged for every pair of elements (assumed contract of slices.SortFunc)
+				if spec := c.E.Specs.Funcs[fnKey(cb)]; spec != nil && len(cb.Params) == 2 {
+					names := c.calleeEnv(cb, a[1].Fn.Bindings, nil)
+					h := c.H(hn)
+					el := func(q string) Val {
+						return Val{T: fmt.Sprintf("(select (select %s (s_ref %s)) (+ (s_off %s) %s))", h, a[0].T, a[0].T, q), S: es, GT: st.Elem()}
+					}
+					names[cb.Params[0].Name()] = el("qsi")
+					names[cb.Params[1].Name()] = el("qsj")
+					for i, cl := range spec.Requires {
+						env := &specEnv{c: c, vars: names, st: c.st, old: c.st, bound: map[string]Val{}, callee: cb}
+						t, err := env.evalBool(cl.Expr)
+						if err != nil {
+							c.E.specError(c.Name+" (sort callback "+fnKey(cb)+")", cl, err)
+							continue
+						}
+						o := c.oblige("precondition", fmt.Sprintf("(forall ((qsi Int) (qsj Int)) (=> (and (<= 0 qsi) (< qsi (s_len %s)) (<= 0 qsj) (< qsj (s_len %s))) %s))", a[0].T, a[0].T, t), fmt.Sprintf("%s/requires%d for all element pairs", fnKey(cb), i+1), pos)
+						o.Props = cl.Props
+					}
+				}
+				c.havocMod(c.E.modInfo(cb).Exist, c.E.modInfo(cb).Fresh, "sort callback")
+				c.E.noteCallbackPanics(c, cb)
+			}
 			row := c.freshConst("sorted", Sort("(Array Int "+string(es)+")"))
 			c.setH(hn, fmt.Sprintf("(store %s (s_ref %s) %s)", c.H(hn), a[0].T, row))
 			return Val{S: "Tuple"}, true
